@@ -19,9 +19,9 @@ def int_candidates(t):
     return [p for p in pats if lo <= p <= hi]
 
 
-R32 = [0.0, 1.5, -2.25, 42.0, 1.0e10, -3.0e-5, 3.4028234663852886e+38, 1.17549435e-38, float('inf')]
+R32 = [0.0, 1.5, -2.25, 42.0, 1.0e10, -3.0e-5, 3.4028234663852886e+38, 1.17549435e-38, float("inf"), -0.0]
 R32 = [_struct.unpack('<f', _struct.pack('<f', x))[0] for x in R32]
-R64 = [0.0, 1.5, -2.25, 42.0, 1.0e100, -3.0e-50, 1.7976931348623157e308, 2.2250738585072014e-308, 0.1]
+R64 = [0.0, 1.5, -2.25, 42.0, 1.0e100, -3.0e-50, 1.7976931348623157e308, 2.2250738585072014e-308, 0.1, -0.0]
 
 BYTES_ALPHABET = [0x00, 0x09, 0x0a, 0x0d, 0x5c, 0x22, 0x20, 0x41, 0x7e, 0x7f, 0x80, 0xff, 0x61, 0x30]
 
